@@ -2,7 +2,7 @@
 //
 // Exhaustive enumeration of gadget.yaml volume definitions built from a small colliding alphabet (sizes,
 // min-sizes, explicit/implicit/overlapping offsets, roles, bare/filesystem types, offset-write, raw content
-// images that do / do not fit). Every definition goes through the real gadget.InfoFromGadgetYaml; every accepted
+// images that do / do not fit, with image file size, declared content size and content offset as independent dimensions). Every definition goes through the real gadget.InfoFromGadgetYaml; every accepted
 // one is laid out with the real gadget.LayoutVolume(vol, gadget.OnDiskStructsFromGadget(vol)) — the image-build
 // path — and the result is checked against the statement (offsets non-negative, increasing, structures pairwise
 // disjoint, content inside its structure, offset-write targets inside the volume) and against an independent
@@ -73,12 +73,12 @@ type imgDef struct {
 // legacy families (index 0..7); the generated product families follow (see init)
 var contents = [][]imgDef{
 	nil,
-	{{1, 1, 0, 0, -1, 0, 0}},                        // exactly fills the structure
-	{{1, 1, 1, 0, -1, 0, 0}},                        // one byte too large
+	{{1, 1, 0, 0, -1, 0, 0}}, // exactly fills the structure
+	{{1, 1, 1, 0, -1, 0, 0}}, // one byte too large
 	{{1, 2, 0, 0, -1, 0, 0}, {1, 2, 0, 0, -1, 0, 0}}, // two halves
 	{{1, 2, 0, 0, -1, 0, 0}, {1, 2, 1, 0, -1, 0, 0}}, // second one overflows by one byte
-	{{1, 1, 0, 0, 1, 0, 0}},                         // fills the structure but is shifted by one byte
-	{{1, 2, 0, 2, -1, 0, 0}},                        // declared size smaller than the image
+	{{1, 1, 0, 0, 1, 0, 0}},                          // fills the structure but is shifted by one byte
+	{{1, 2, 0, 2, -1, 0, 0}},                         // declared size smaller than the image
 	{{1, 2, 0, 1, -1, 0, 0}, {1, 2, 0, 1, 0, 0, 0}},  // second image explicitly placed over the first
 }
 
@@ -168,7 +168,9 @@ func (s sdef) minSize() uint64 {
 }
 func (s sdef) fixed() bool { return s.minSize() == s.size() }
 
-func (d imgDef) imageSize(S uint64) uint64 { return uint64(int64(S*uint64(d.num)/uint64(d.den)) + d.add) }
+func (d imgDef) imageSize(S uint64) uint64 {
+	return uint64(int64(S*uint64(d.num)/uint64(d.den)) + d.add)
+}
 
 // declSize is the declared content size (ok false: no size declared)
 func (d imgDef) declSize(S uint64) (sz uint64, ok bool) {
@@ -298,10 +300,19 @@ type refLayout struct {
 	owBad   bool // an offset-write target is certainly outside the volume (or refers to the wrong structure)
 	owGray  bool // target inside the laid-out volume but beyond the volume's minimum size
 	fits    bool // all raw content fits its structure without overlap
+	cov     int
 	content [][]civ // by yaml index of the structure, in declaration order: reference extent of each content relative to the structure
 }
 
 type civ struct{ a, b uint64 }
+
+// coverage of the content dimensions (counted on accepted definitions)
+const (
+	covDeclLarger = 1 << iota // some content declares a size larger than its image file
+	covDeclBeyond             // ... and the file alone would fit at its start, but the declared size reaches beyond the structure's end
+	covExplicit               // some content has an explicit offset
+	covMulti                  // a structure with more than one content
+)
 
 // reference placement: explicit offsets are respected; a structure without offset follows the previous one (in yaml
 // order); a non-mbr structure is not placed below 1 MiB implicitly when the previous end is well known.
@@ -402,6 +413,13 @@ func reference(c vcase) refLayout {
 			st := prev
 			if est, ok := d.start(s.size()); ok {
 				st = est
+				r.cov |= covExplicit
+			}
+			if sz > isz {
+				r.cov |= covDeclLarger
+				if st+isz <= s.size() && st+sz > s.size() {
+					r.cov |= covDeclBeyond
+				}
 			}
 			if st+sz > s.size() {
 				r.fits = false
@@ -417,6 +435,9 @@ func reference(c vcase) refLayout {
 			}
 		}
 		r.content[si] = ivs
+		if len(ivs) > 1 {
+			r.cov |= covMulti
+		}
 	}
 	return r
 }
@@ -429,6 +450,7 @@ type outcome struct {
 	accepted bool
 	laidOut  bool
 	class    string
+	cov      int
 	bad      []verdict
 }
 
@@ -459,6 +481,7 @@ func judge1(c vcase) outcome {
 		return out
 	}
 	out.accepted = true
+	out.cov = ref.cov
 	vol := info.Volumes["pc"]
 	if vol == nil || len(vol.Structure) != len(c.S) {
 		out.bad = append(out.bad, verdict{"accepted-volume-mangled", fmt.Sprintf("%s accepted but the volume has %d structures", c.short(), len(vol.Structure))})
@@ -728,6 +751,7 @@ func explore(r *eng.Run, sp space) {
 	wit := map[string]*witness{}
 	classes := map[string]int64{}
 	var evals, accepted, laid, nontrivial, done int64
+	var cov, covLaid [4]int64
 	var stop int32
 	items := len(sp.schemas) * L
 	eng.ParallelFor(items, func(it int) {
@@ -737,6 +761,7 @@ func explore(r *eng.Run, sp space) {
 		schema := sp.schemas[it/L]
 		var le, la, ll, ln int64
 		lc := map[string]int64{}
+		var lcov, lcovLaid [4]int64
 		c := vcase{Schema: schema, S: make([]sdef, sp.n)}
 		c.S[wide] = pos[wide][it%L]
 		for x := 0; x < rest; x++ {
@@ -764,6 +789,16 @@ func explore(r *eng.Run, sp space) {
 			if out.laidOut {
 				ll++
 			}
+			if out.accepted && out.cov != 0 {
+				for b := 0; b < 4; b++ {
+					if out.cov&(1<<b) != 0 {
+						lcov[b]++
+						if out.laidOut {
+							lcovLaid[b]++
+						}
+					}
+				}
+			}
 			if len(out.bad) != 0 {
 				sh := c.short()
 				mu.Lock()
@@ -789,6 +824,10 @@ func explore(r *eng.Run, sp space) {
 		atomic.AddInt64(&laid, ll)
 		atomic.AddInt64(&nontrivial, ln)
 		atomic.AddInt64(&done, 1)
+		for b := 0; b < 4; b++ {
+			atomic.AddInt64(&cov[b], lcov[b])
+			atomic.AddInt64(&covLaid[b], lcovLaid[b])
+		}
 		mu.Lock()
 		for k, v := range lc {
 			classes[k] += v
@@ -800,6 +839,10 @@ func explore(r *eng.Run, sp space) {
 	r.Add("volumes_accepted", accepted)
 	r.Add("volumes_laid_out", laid)
 	r.Add("distinct_nontrivial", nontrivial)
+	for b, name := range []string{"content_declared_larger_than_file", "content_declared_beyond_structure_while_file_fits", "content_explicit_offset", "content_several_in_one_structure"} {
+		r.Add("accepted_with_"+name, cov[b])
+		r.Add("laid_out_with_"+name, covLaid[b])
+	}
 	for k, v := range classes {
 		r.Distinct("outcome", k)
 		r.Add("outcome_"+k, v)
@@ -845,7 +888,8 @@ func TestC38(t *testing.T) {
 	r := eng.Start("C38", "exploration", 300*time.Second, 12*time.Minute)
 	r.Assume("layout = gadget.LayoutVolume(vol, gadget.OnDiskStructsFromGadget(vol)) with SkipResolveContent: the image-build path, structures at their full size",
 		"reference placement: explicit offsets respected; a structure without offset follows the previous one in yaml order, a non-mbr one not below 1 MiB when the previous end is well known",
-		"raw content images are sparse files of the exact sizes named in the definition; filesystem structures carry no content",
+		"raw content images are real sparse files (named img-<file size>) in a gadget dir under the work dir; the declared content size is independent of the file size; filesystem structures carry no content",
+		"content reference (beyond the statement): laid-out content size = declared size when there is one, else the image file size; start = explicit offset, else the end of the previously declared content",
 		"acceptance reference (beyond the statement, calibrated on the unchanged tree): a definition whose structures are individually valid, pairwise disjoint in the reference placement and whose offset-writes lie inside the minimum volume must be accepted")
 	// real (sparse) image files of every file size of the alphabet, in a gadget dir under the engine's work dir
 	var err error
@@ -934,6 +978,8 @@ func TestC38(t *testing.T) {
 			{name: "content-2", schemas: []string{"gpt"}, n: 2, kinds: []int{kMBR, kBare, kBoot}, sizes: idx(2), mins: idx(2), offs: idx(3), ows: []int{0}, cts: idx(legacyFamilies)},
 			{name: "content-size-2a", schemas: []string{"gpt"}, n: 2, pos: [][]sdef{cat(richMBR(fam12), rich2), plainFew}},
 			{name: "content-size-2b", schemas: []string{"gpt"}, n: 2, pos: [][]sdef{cat(plainMBR, plainFew), rich2}},
+			{name: "content-size-3entries-a", schemas: []string{"gpt"}, n: 2, pos: [][]sdef{cat(richMBR(rng(fam3From, fam3To)), richBare([]int{1}, []int{0}, []int{oImpl, o2M}, rng(fam3From, fam3To))), plainFew}},
+			{name: "content-size-3entries-b", schemas: []string{"gpt"}, n: 2, pos: [][]sdef{cat(plainMBR, plainFew), richBare([]int{1}, []int{0}, []int{oImpl, o2M}, rng(fam3From, fam3To))}},
 		}
 	} else {
 		spaces = []space{
@@ -965,6 +1011,7 @@ func TestC38(t *testing.T) {
 	}
 	r.Info("bounds", bounds)
 	r.Info("alphabet", map[string]interface{}{"kinds": kindNames, "sizes": sizes, "min_size": []string{"unset", "half", "double(invalid)"}, "offsets": []string{"implicit", "0", "1MiB", "1.5MiB", "2MiB"},
-		"offset_write": "none | absolute 0,442,443,2MiB-4,2MiB-3,4MiB | s0+0,s0+442,s0+443 | s1+0", "content": "none | fills | +1 byte | two halves | second half +1 | shifted by 1 | declared smaller than image | explicitly overlapping"})
-	finish("every volume definition of exactly n structures over the per-space structure alphabet (kind x size x min-size x offset x offset-write x content) and schema is rendered to gadget.yaml, validated by InfoFromGadgetYaml and, if accepted, laid out; distinct_nontrivial = accepted definitions with at least two structures (each is laid out and checked pairwise)")
+		"offset_write": "none | absolute 0,442,443,2MiB-4,2MiB-3,4MiB | s0+0,s0+442,s0+443 | s1+0", "content": "none | fills | +1 byte | two halves | second half +1 | shifted by 1 | declared smaller than image | explicitly overlapping",
+		"content_size_entry": "image file size {S/4, S/2, S, S+1} x declared size {absent, = file, file-1, file+S/4, file+S/2} x content offset {implicit (after the previous content), 0, 1, S/2, 3S/4}; families: every 1-entry and 2-entry sequence over the 100 entries (10 100); thorough also every 3-entry sequence over file {S/4, S/2} x declared {absent, = file, file+S/4, file+S/2} x offset {implicit, 0, S/2, 3S/4} (32 768)"})
+	finish("every volume definition of exactly n structures over the per-space structure alphabet (kind x size x min-size x offset x offset-write x content) and schema is rendered to gadget.yaml, validated by InfoFromGadgetYaml and, if accepted, laid out with its content; the content-size spaces put one bare structure carrying every 1- and 2-entry content family (file size x declared size x offset per entry) before / after one plain neighbour; distinct_nontrivial = accepted definitions with at least two structures (each is laid out and checked pairwise)")
 }
